@@ -1,6 +1,7 @@
 pub mod c01;
 pub mod common;
 pub mod concprops;
+pub mod crashprops;
 pub mod seqdom;
 pub mod seqprops;
 
@@ -14,6 +15,8 @@ pub fn all() -> Vec<Box<dyn Prop>> {
         Box::new(seqprops::C10),
         Box::new(seqprops::C11),
         Box::new(seqprops::C16),
+        Box::new(crashprops::C04),
+        Box::new(crashprops::C05),
         Box::new(concprops::C06),
         Box::new(concprops::C07),
         Box::new(concprops::C18),
